@@ -781,11 +781,11 @@ func (c *Client) readResponseData(typ string) error {
 		if !c.dec.ExpectSP() || !c.dec.ExpectAtom(&typ) {
 			return c.dec.Err()
 		}
+	}
 
-		// Message sequence numbers start at 1
-		if num == 0 && (typ == "FETCH" || typ == "EXPUNGE") {
-			return fmt.Errorf("in message-data: invalid message sequence number 0")
-		}
+	// Message sequence numbers start at 1
+	if num == 0 && (typ == "FETCH" || typ == "EXPUNGE") {
+		return fmt.Errorf("in message-data: missing or zero message sequence number")
 	}
 
 	switch typ {
